@@ -251,6 +251,13 @@ def gen_pair(rng, kind=None, n=None, m=None):
         a, b_ = [float(2 * i + 1) for i in range(n)], [float(2 * i + 2) for i in range(m)]
         rng.shuffle(a)
         rng.shuffle(b_)
+    elif kind == "far-shift":
+        # most of the batch above most of the reference: a large statistic (0.5 < D < 1) without complete separation
+        a = [float(i) for i in range(n)]
+        off = rng.choice([0.55, 0.7, 0.85]) * n
+        b_ = [off + 0.5 + i * (n / m) for i in range(m)]
+        rng.shuffle(a)
+        rng.shuffle(b_)
     elif kind == "identical":
         a = [rng.randrange(-24, 25) / 8 for _ in range(n)]
         b_ = list(a)
@@ -455,7 +462,9 @@ def run(ck: Check):
 
     # ---------------- numeric detectors
     pairs = []
-    fixed = [("interleaved", 3, 3), ("interleaved", 4, 4), ("interleaved", 2, 3), ("gauss", 2, 2), ("ties", 3, 4), ("grid", 5, 5), ("const-equal", 4, 6), ("identical", 5, 5), ("one-const", 3, 7), ("const-diff", 5, 8)]
+    fixed = [("interleaved", 3, 3), ("interleaved", 4, 4), ("interleaved", 2, 3), ("gauss", 2, 2), ("ties", 3, 4), ("grid", 5, 5), ("const-equal", 4, 6), ("identical", 5, 5), ("one-const", 3, 7), ("const-diff", 5, 8),
+             # sizes whose effective size n*m/(n+m) is an even / odd INTEGER, with a large statistic (end to end through compare)
+             ("far-shift", 10, 15), ("far-shift", 20, 30), ("far-shift", 15, 10), ("far-shift", 12, 24), ("far-shift", 6, 3), ("far-shift", 30, 20)]
     for i in range(NP):
         if i < len(fixed):
             pairs.append(gen_pair(rng, *fixed[i]))
